@@ -16,6 +16,7 @@ import (
 
 	"github.com/DataDog/extendeddaemonset/api/v1alpha1"
 	edsctrl "github.com/DataDog/extendeddaemonset/controllers/extendeddaemonset"
+	erscontroller "github.com/DataDog/extendeddaemonset/controllers/extendeddaemonsetreplicaset"
 	"github.com/DataDog/extendeddaemonset/pkg/controller/utils/comparison"
 	"github.com/DataDog/extendeddaemonset/zzverif/fakeapi"
 	"github.com/DataDog/extendeddaemonset/zzverif/nondet"
@@ -78,6 +79,11 @@ func zzScenario(state string) (*fakeapi.Client, *v1alpha1.ExtendedDaemonSet) {
 			rsB.Status.Conditions = append(rsB.Status.Conditions, v1alpha1.ExtendedDaemonSetReplicaSetCondition{Type: v1alpha1.ConditionTypeCanaryFailed, Status: corev1.ConditionTrue, LastTransitionTime: at, LastUpdateTime: at})
 		}
 		c.ERS = append(c.ERS, rsB)
+	}
+	// the user may have switched automatic failing off: a manual `canary fail` still counts
+	if ds.Spec.Strategy.Canary != nil && nondet.Bool("autoFailDisabled") {
+		off := false
+		ds.Spec.Strategy.Canary.AutoFail = &v1alpha1.ExtendedDaemonSetSpecStrategyCanaryAutoFail{Enabled: &off}
 	}
 	v1alpha1.DefaultExtendedDaemonSetSpec(&ds.Spec, v1alpha1.ExtendedDaemonSetSpecStrategyCanaryValidationModeAuto)
 	c.Nodes = append(c.Nodes, &corev1.Node{ObjectMeta: metav1.ObjectMeta{Name: "node0"}}, &corev1.Node{ObjectMeta: metav1.ObjectMeta{Name: "node1"}})
@@ -220,6 +226,12 @@ func ZZ_C19_canaryCmds() {
 		after.Spec.Template = zzTpl("C")
 	}
 	// ---- the controller's interpretation ----
+	// the command's write wakes up both controllers: the replica-set controller may sync the canary
+	// replica set before the ExtendedDaemonSet controller reacts
+	if cmd == "fail" && nondet.Bool("replicaSetControllerSyncsFirst") {
+		rsRec, _ := erscontroller.NewReconciler(erscontroller.ReconcilerOptions{}, c, c.Scheme(), logr.Logger{}, &fakeapi.Recorder{})
+		_, _ = rsRec.Reconcile(context.TODO(), reconcile.Request{NamespacedName: types.NamespacedName{Namespace: "ns", Name: "foo-b"}})
+	}
 	rerr := zzReconcileEDS(c)
 	if edited {
 		// the reconcile creates the replica set for C; reconcile again to let it decide
